@@ -908,13 +908,13 @@ def _stack():
         ids = w.arrays()
         if len(ids) < 2:
             return None
-        k = rng.randint(2, min(3, len(ids)))
+        k = rng.randint(1, min(3, len(ids)))
         sel = [rng.choice(ids) for _ in range(k)]
         names = []
         for i in sel:
             names.extend(w_all_dims(w.arr(i)))
         cand = [d for d in NEWDIMS + V.DIM_NAMES if d not in names]
-        st = {"a": sel[0], "b": sel[1], "others": sel[2:], "axis": rng.choice(cand + [None]), "out": out(w),
+        st = {"a": sel[0], "b": sel[1] if k > 1 else None, "others": sel[2:], "axis": rng.choice(cand + [None]), "out": out(w),
               "align": rng.random() < 0.5}
         if rng.random() < 0.6:
             st["keys"] = V.gen_labels(rng, k)
@@ -926,7 +926,7 @@ def _stack():
         return st
 
     def run(w, s):
-        arrs = [w.arr(i) for i in [s["a"], s["b"]] + s.get("others", [])]
+        arrs = [w.arr(i) for i in [s["a"], s["b"]] + s.get("others", []) if i]
         kw = {}
         if s.get("sort"):
             kw["sort"] = True
@@ -951,11 +951,26 @@ def _concatenate():
         st = {"a": a_id, "b": b_id, "axis": ref, "align": rng.random() < 0.4, "out": out(w)}
         if st["align"] and rng.random() < 0.4:
             st["sort"] = True
+        r = rng.random()
+        if r < 0.15:
+            st["n"] = 1          # a list of one array is legal
+            st["b"] = None
+        elif r < 0.3:
+            st["n"] = 3
+        if rng.random() < 0.3:
+            st["tuple"] = True
         return st
 
     def run(w, s):
         kw = {"sort": True} if s.get("sort") else {}
-        return w.da.concatenate([w.arr(s["a"]), w.arr(s["b"])], axis=s["axis"], align=s["align"], **kw)
+        arrs = [w.arr(s["a"])]
+        if s.get("n", 2) >= 2:
+            arrs.append(w.arr(s["b"]))
+        if s.get("n", 2) == 3:
+            arrs.append(w.arr(s["a"]))
+        if s.get("tuple"):
+            arrs = tuple(arrs)
+        return w.da.concatenate(arrs, axis=s["axis"], align=s["align"], **kw)
     return gen, run
 
 
